@@ -291,16 +291,18 @@ def static_stackers(game, m, ops):
 
 
 def loc_rules_ok(game, m, ops):
-    """pandas enlarges a frame *before* it validates the mask (and refuses a scalar for a new column of a frame
-    without rows): a failing call with that side effect on the private copy is not generated — a `loc` assignment names
-    a column outside the stacker's own columns only with a mask of the right length on a stack that has rows"""
+    """what is still not generated around `loc` calls: on a stack WITHOUT rows, `loc[mask, [cols…]] = v` with a list of
+    columns that names a new column (pandas then creates a column of the placeholder dtype V0 even when the call
+    succeeds, and that meets the empty-frame enlargement quirk; no list has rows there, so no list can be affected).
+    On stacks with rows the failing call (wrong mask length) and its side effect on the private copy (new columns of
+    dtype V0) are generated and modelled (`errEffect`)."""
     sts = static_stackers(game, m, ops)
     for op in ops:
         if op["k"] in ("loc_set", "loc_map") and op["sid"] < len(sts):
             st = sts[op["sid"]]
             foreign = any(c not in st["cols"] for c in op["cols"])
             bad_len = "bits" in op["mask"] and len(op["mask"]["bits"]) != st["n"]
-            if foreign and (bad_len or st["n"] == 0):
+            if foreign and st["n"] == 0 and not op.get("single") and op["k"] == "loc_set":
                 return False
             if "cond" in op["mask"] and op["mask"]["cond"][0] not in st["cols"]:
                 return False
@@ -383,12 +385,12 @@ def gen_ops_map(rng, game, m):
                 ops.append(dict(k="set", sid=sid, col=col, v=v))
         else:
             mask = gen_mask(rng, n, cols)
-            if "bits" in mask and rng.random() < 0.04:
+            if "bits" in mask and rng.random() < 0.07:
                 mask["bits"] = mask["bits"] + [True]          # IndexError path
             k = rng.choice([1, 1, 1, 2, 2, 3])
             pool = pick_pool if rng.random() < 0.85 else cols
             sel = rng.sample(pool, min(k, len(pool))) if pool else ["offset"]
-            if rng.random() < 0.06:
+            if rng.random() < 0.10:
                 sel = sel + [rng.choice([c for c in FOREIGN if c not in sel])]
             single = len(sel) == 1 and rng.random() < 0.6
             if rng.random() < 0.55:
@@ -400,7 +402,20 @@ def gen_ops_map(rng, game, m):
             else:
                 s, span = gen_scalar(rng, sel[0] if all(c == sel[0] or numeric_col(c) == numeric_col(sel[0]) for c in sel) else "offset", span)
                 ops.append(dict(k="loc_set", sid=sid, mask=mask, cols=sel, single=single, v=s))
-        if len(ops) > n_ops + 2:
+        last = ops[-1]
+        if last["k"] in ("loc_set", "loc_map") and rng.random() < 0.5:
+            fc = [c for c in last["cols"] if c not in cols]
+            if fc:      # follow a call that named a foreign column with a use of that column
+                r2 = rng.random()
+                if r2 < 0.4:
+                    ops.append(dict(k="map", sid=sid, col=fc[0], f=["add", R(1)]))
+                elif r2 < 0.7:
+                    ops.append(dict(k="loc_set", sid=sid, mask=dict(bits=[rng.random() < 0.5 for _ in range(n)]), cols=[fc[0]],
+                                    single=rng.random() < 0.5, v=R(2)))
+                    ops.append(dict(k="map", sid=sid, col=fc[0], f=["add", R(1)]))
+                else:
+                    ops.append(dict(k="loc_map", sid=sid, mask=dict(bits=[False] * n), cols=[fc[0]], single=False, f=["add", R(1)]))
+        if len(ops) > n_ops + 4:
             break
     return ops
 
@@ -495,6 +510,18 @@ def corpus():
                        dict(k="loc_set", sid=1, mask=dict(cond=["column", "ge", o(1)]), cols=["offset", "column"], single=False, v=o(9)),
                        dict(k="attr_set", sid=1, name="volume", v=dict(s=o(3))),
                        dict(k="attr_map", sid=1, name="volume", f=["add", o(3)])]))
+    # a failing loc assignment (wrong mask length) that leaves new columns behind on the private copy, and what
+    # follows on those columns; the single-name form leaves nothing behind
+    c.append(dict(claim="map", game="base", maps=[dict(hits=hits3, holds=dict(rows=[]), bpms=dict(rows=[[o(0), o(120), o(4)]]))],
+                  ops=[dict(k="stack", incl=None),
+                       dict(k="loc_set", sid=0, mask=dict(bits=[True, False]), cols=["yy"], single=True, v=o(1)),
+                       dict(k="map", sid=0, col="yy", f=["add", o(1)]),
+                       dict(k="loc_set", sid=0, mask=dict(bits=[True, False]), cols=["offset", "zz"], single=False, v=o(1)),
+                       dict(k="map", sid=0, col="zz", f=["add", o(1)]),
+                       dict(k="loc_map", sid=0, mask=dict(bits=[False, False, False, False]), cols=["zz"], single=False, f=["add", o(1)]),
+                       dict(k="loc_set", sid=0, mask=dict(bits=[True, False, False, True]), cols=["zz"], single=True, v=o(5)),
+                       dict(k="map", sid=0, col="zz", f=["add", o(1)]),
+                       dict(k="attr_map", sid=0, name="offset", f=["mul", o(2)])]))
     # mapset: charts of unequal length, an empty chart, a frame with fewer rows than charts
     mk = lambda n: dict(hits=dict(rows=[[o(1000 * (i + 1)), o(i)] for i in range(n)]), holds=dict(rows=[]), bpms=dict(rows=[[o(0), o(120), o(4)]] if n else []))
     c.append(dict(claim="mapset", game="base", maps=[mk(2), mk(3), mk(0), mk(1)],
@@ -820,7 +847,7 @@ def do_map_op(stacks, types, mp, op, out):
         mobj, bits = resolve_mask(st, op["mask"])
         cols = op["cols"][0] if op.get("single") else list(op["cols"])
         if k == "loc_set":
-            sent = dict(k=k, sid=op["sid"], mask=bits, cols=op["cols"], v=op["v"])
+            sent = dict(k=k, sid=op["sid"], mask=bits, single=bool(op.get("single")), cols=op["cols"], v=op["v"])
             out[0] = sent
             st.loc[mobj, cols] = py_scalar(op["v"])
         else:
@@ -847,7 +874,7 @@ def wire(x):
 
 def sent_fallback(op):
     """the op as sent to the model when the real call raised before the mask was resolved"""
-    s = {k: v for k, v in op.items() if k not in ("single", "mask")}
+    s = {k: v for k, v in op.items() if k != "mask"}
     if "mask" in op:
         s["mask"] = op["mask"].get("bits", [])
     return s
@@ -946,6 +973,11 @@ def run_map(case, drv):
     stale = any(not f for f in fresh)
     if stale:
         tags.append("stale-stacker")
+    if mo["wf"] and all(mo.get("latest", [False])):
+        tags.append("latest-only")        # inside write_through_latest (no hypothesis on the run)
+        if stale:                         # theorem latest_fresh says this cannot happen
+            agree = False
+            detail["latest_but_stale"] = True
     dom = mo["wf"] and not stale
     kf = None
     if not ok and first_bad is not None and first_bad < len(fresh) and not fresh[first_bad]:
